@@ -12,3 +12,5 @@ Definition cleared_cmp (c : list Z * Z * Z * (Z * Z * Z)) : Z :=
   let eq3 (x y : Z * Z * Z) := (fst (fst x) =? fst (fst y)) && (snd (fst x) =? snd (fst y)) && (snd x =? snd y) in
   if eq3 u d then (if eq3 u e then 0 else 2) else (if eq3 u e || eq3 d e then 1 else 2).
 Definition dead_cmp (c : Z * Z * option Z) : bool := let '(w, d, e) := c in opt_eqb Z.eqb (dead_heat w d None) e.
+Definition result_eqb (a b : result) : bool := match a, b with RsWinner, RsWinner | RsLoser, RsLoser | RsPlaced, RsPlaced | RsRemoved, RsRemoved | RsNone, RsNone => true | _, _ => false end.
+Definition closed_cmp (c : list (Z * Z * result) * (Z * Z) * result) : bool := let '(rs, k, e) := c in result_eqb (closed_result rs k RsNone) e.
